@@ -211,4 +211,12 @@ def processHash (value : Bytes) (pattern : Bool) : Bytes :=
   let stripped := match value with | 0x23 :: r => r | _ => value
   if pattern then stripped else canonicalizeHash stripped
 
+/-! ### `url_pattern::match` / `test` on a URL string: the eight component inputs read off the parsed `url_aggregator` -/
+
+/-- "protocol suffix ':' is removed", "search prefix '?' is removed" (`has_search()`), "hash prefix '#' is removed" (`has_hash()`) -/
+def urlInputs (a : Agg.Agg) : List Bytes :=
+  let search := if a.ss.isSome then (let v := Agg.getSearch a; if v.head? == some 0x3F then v.drop 1 else v) else []
+  let hash := if a.hh.isSome then (let v := Agg.getHash a; if v.head? == some 0x23 then v.drop 1 else v) else []
+  [(Agg.getProtocol a).dropLast, Agg.getUsername a, Agg.getPassword a, Agg.getHostname a, Agg.getPort a, Agg.getPathname a, search, hash]
+
 end AdaVerif.Model.PatternCanon
